@@ -154,10 +154,17 @@ var callRules = map[string]callRule{
 	"crypto/tls.Dial":           {"DialTLS", false, false, "crypto/tls"},
 	"crypto/tls.DialWithDialer": {"DialTLSWithDialer", false, false, "crypto/tls"},
 	"(*golang.org/x/sync/semaphore.Weighted).Acquire": {"SemAcquire", true, true, ""},
-	"(*sync.Once).Do":   {"OnceDo", true, true, ""},
-	"(*sync.Map).Range": {"SyncMapRange", true, false, ""},
-	"(*sync.Pool).Get":  {"PoolGet", true, false, ""},
-	"(*sync.Pool).Put":  {"PoolPut", true, false, ""},
+	"(io.Reader).Read":            {"IORead", true, true, ""},
+	"(*bufio.Writer).Flush":       {"BufioFlush", true, true, ""},
+	"(*bufio.Writer).WriteString": {"BufioWriteString", true, true, ""},
+	"(*bufio.Writer).Write":       {"BufioWrite", true, true, ""},
+	"(*os.File).Read":             {"FileRead", true, true, ""},
+	"(*os.File).Write":            {"FileWrite", true, true, ""},
+	"(*os.File).WriteString":      {"FileWriteString", true, true, ""},
+	"(*sync.Once).Do":             {"OnceDo", true, true, ""},
+	"(*sync.Map).Range":           {"SyncMapRange", true, false, ""},
+	"(*sync.Pool).Get":            {"PoolGet", true, false, ""},
+	"(*sync.Pool).Put":            {"PoolPut", true, false, ""},
 }
 
 // constructs that are known, deliberately not simulated, and only counted
@@ -1058,7 +1065,9 @@ func (f *fileCtx) rewriteCall(x *ast.CallExpr, rule callRule, name string) {
 			rt = cur
 			stats["promoted_method"]++
 		}
-		if _, isPtr := rt.Underlying().(*types.Pointer); !isPtr {
+		_, isPtr := rt.Underlying().(*types.Pointer)
+		_, isIface := rt.Underlying().(*types.Interface)
+		if !isPtr && !isIface {
 			recv = "&" + recv
 		}
 		head = "simrt." + rule.fn + "(" + recv
